@@ -18,6 +18,8 @@ HAZARDS = [
     "\u0663 days", "\U00010d43 days", "\U000116d3 uhr",
     # characters whose compatibility-normalised form has another length (offsets behind them must stay offsets into the normalised text)
     "lunch\u2026", "\ufb01x", "\u00bd", "Bu\u0308ro",
+    # letters that only case-FOLD to an ASCII letter (long s, Kelvin sign): the case-insensitive patterns accept them, str.lower() does not change them
+    "5. \u017feptember 2020", "\u017fep", "augu\u017ft", "o\u212atober", "\u017fonntag",
 ]
 
 HAZARD_CORE = [
